@@ -259,3 +259,20 @@ def check(ctx, rep: Report):
     rep.sample({"entry": "protect_via_deepcopy", "rows": r["rows"][:3]})
     for b in sorted(set(bad)):
         rep.violate(Violation("C02.PT", f"C02.PT|{b[:70]}", b, "", "protect_via_deepcopy", [], "protect_via_deepcopy"))
+
+
+    # ---- C02.DEF: fresh defaults (reset_* / del / constructor rely on it); shared with C08.FR
+    rep.rules["C02.DEF"] = "default lookups hand out fresh copies (a reset/constructed instance shares nothing with the class-level default)"
+    from .c08 import fr_worker
+    for r in pmap(fr_worker, ["lookup_default_value", "default_value"]):
+        rep.functions |= set(r["functions"])
+        rep.evaluations += len(r["rows"])
+        bad = []
+        for row in r["rows"]:
+            if row["kind"] != "ok" or (row["sentinel"] and row["ret"] == "MISSING") or "FRESH" in row["prov"] or row["ret"] in row["imm"]:
+                continue
+            bad.append(f"returns `{row['ret']}` ({'+'.join(row['prov']) or 'atom'}) uncopied")
+        rep.oblige("C02.DEF", f"Attr.{r['which']}", not bad, "; ".join(sorted(set(bad))[:2]))
+        for b in sorted(set(bad)):
+            rep.violate(Violation("C02.DEF", f"C02.DEF|Attr.{r['which']}|{b[:60]}", f"Attr.{r['which']} {b}: instances obtained by reset_<attr>() / reset() / construction share the class-level object",
+                                  "", f"Attr.{r['which']}"))
